@@ -41,6 +41,13 @@ CLAIMED = {
             "Bounds: graphs <=3 nodes with all relabelings, 4-node graphs (<=4 bonds) under all bijections, C4 and K4-e; "
             "labels are formatted into strings by the code, so each path is one realised labelled graph and relabelling "
             "(solver-driven exhaustion); SHA-256 truncation collisions ignored."),
+    "C10": ("Bounded symbolic model checking of the graph-level representation changes on the real code: h_to_explicit / "
+            "h_to_implicit / implicit_hydrogen (restoration, hydrogen totals, inputs untouched) with symbolic hydrogen "
+            "counts, and ITS -> GML text -> ITS for centre and full rules (core/reindex on/off) plus the smart_to_gml route "
+            "with the RDKit parser stubbed, compared on element, charges and (before, after) orders.",
+            "Bounds: molecules <=3 heavy atoms (thorough 4), hcount 0..2; reactions on 2-3 atoms with orders up to "
+            "{0,1,1.5,2,3} and charges -2..2; GML labels are formatted text so those paths are realised (solver-driven "
+            "exhaustion). SMILES<->graph clauses need RDKit and are outside."),
     "C11": ("Bounded symbolic model checking of Automorphism (count and orbits against the z3 formula over all "
             "component-wise permutations, labels symbolic), AutoEst (never separates a true orbit) and "
             "deduplicate_matches_with_anchor (order-preserving sub-list, idempotent) on the real code.",
